@@ -44,8 +44,8 @@ def K(name, harnesses, complete, bound, tier="quick", function=None, zflags=None
             "tier": tier, "function": function, "zflags": zflags or [], "timeout": timeout}
 
 
-def N(name, task, tier="quick"):
-    return {"kind": "native", "name": name, "task": task, "tier": tier}
+def N(name, task, tier="quick", thorough_task=None):
+    return {"kind": "native", "name": name, "task": task, "tier": tier, "thorough_task": thorough_task, "timeout": 3600}
 
 
 def B(name, task, bound, tier="quick", timeout=1800):
@@ -126,7 +126,7 @@ PROPS["C06"] = {
     "technique": "Verus spec-level lemmas over the proved-equal rule spec - per condition (parse_args_spec) and per condition list (run_list, by induction) acceptance under stricter flags implies identical acceptance under laxer flags - on top of the contracts that tie parse_args / parse_conditions / validate_conditions to those specs; native evaluation of ground relations between runs (strict vs lenient, permutations) of the real parser",
     "level_text": "Deductive proof: for every tree, opcode and pair of flag words that differ only in strictness flags, strict acceptance of a condition implies lenient acceptance with the identical parsed condition (lemma_strict_only_restricts), and the same for a whole condition list with the identical summary (lemma_run_list_strict_only_restricts, induction over the list); parse_args and parse_conditions are proved equal to those specs (units conditions_parse, conditions_effects), and the deferred checks are proved to be a function of order-insensitive sets, sums and extrema (unit validate_conds, iff). Order independence itself is not a machine-checked lemma: it is decided on 378 ground relations (reversed / rotated / interleaved condition orders, swapped spends, each strictness subset x fork flags) over fixed bundles with boundary multiplicities (127/128/129 identical messages, 1023/1024/1025 announcements, 5999/6000/6001 spends).",
     "level_note": "Inherits C01's assumptions. The spec's aggregates are maxima, minima, sums and set insertions, which is why order cannot matter; that commutation argument over the spec (36 x 36 condition kinds) exceeded the solver's resource limit and is not claimed.",
-    "components": [V("conditions_parse"), V("conditions_effects"), V("validate_conds"), N("native_relations_ground", "relations_ground"), V("drivers")],
+    "components": [V("conditions_parse"), V("conditions_effects"), V("validate_conds"), N("native_relations_ground", "relations_ground", thorough_task="relations_ground:thorough"), V("drivers")],
     "assumptions": ["inherits C01 (conditions_parse / conditions_effects units)"],
     "not_covered": [
         "permutation invariance as a machine-checked lemma over the summary spec (only ground relations)",
@@ -200,7 +200,7 @@ PROPS["C12"] = {
     "technique": "Verus contracts on the real merkle_set.rs (get_bit, encode_type, hash, radix_sort with its partition loop and recursive sub-slice calls, compute_merkle_set_root) against a trie specification defined over the *set* of leaves; Verus contracts on the real merkle_tree.rs lookup (generate_proof_impl, other_included, get_root, generate_proof, validate_merkle_proof) against what a tree proves about an item",
     "level_text": "Deductive proof for every slice of 32-byte leaves (any length < 2^31, any order, with duplicates, shared prefixes down to bit 255): compute_merkle_set_root equals root_spec(set of leaves), where root_spec is the collapsed binary-trie hash written from the statement; because the spec is a function of the set, order and duplicates cannot matter. Includes index safety, i32 arithmetic, termination (256 - depth) and unreachability of the panic!.",
     "level_note": "sha256 uninterpreted (Sha256 ghost model). Unit merkle_tree: for every well-formed node vector, generate_proof_impl answers included only at a leaf equal to the item, excluded only at an empty node / a different leaf / a double-leaf node without the item reached along the item's bits, and errs exactly when the walk ends in a truncated sub-tree; get_root is the root entry's hash (leaf hashed, empty = 32 zero bytes); validate_merkle_proof gives that verdict only when the deserialized tree's root equals the claimed root, otherwise errs. ASSUMED: the proof deserializer (stack machine) yields a well-formed tree of depth <= 255 or fails; pad_middles_for_proof_gen terminates. Soundness proper (that no proof for a given root validates with the opposite verdict) needs collision-freeness and the proof deserializer: it is decided on ground instances only - 107 735 obligations over 21 leaf sets (splits at bits 0..255, duplicates, dense low bits): from_leafs root == compute_merkle_set_root, every member / probed non-member has a generated proof that validates with the true verdict, and no corrupted proof (every single-bit flip of every byte, appended / dropped bytes, proofs issued for other items, empty siblings moved to the other side - the last two keep the root hash) validates with the opposite verdict.",
-    "components": [V("merkle_set"), V("merkle_tree"), N("native_merkle_ground", "merkle_ground")],
+    "components": [V("merkle_set"), V("merkle_tree"), N("native_merkle_ground", "merkle_ground", thorough_task="merkle_ground:thorough")],
     "assumptions": ["Sha256 ghost model, sha256 uninterpreted", "<[T]>::swap, u8::from(bool) std contracts", "Verus's model of `&mut range[..k]` sub-slice borrows"],
     "not_covered": [
         "merkle_tree.rs: MerkleSet::from_leafs/get_root agreement with compute_merkle_set_root for all sets (ground instances only)",
@@ -312,7 +312,7 @@ PROPS["C10"] = {
     "technique": "Verus contracts on the real BlockBuilder::{add_spend_bundles, cost, finalize} (compressed builder, extracted; generic iterator parameter monomorphised at &[SpendBundle]) with a representation invariant over any call history, under assumed contracts on clvmr's incremental Serializer; native evaluation of ground builder histories of both builders (offers landing on the limit, late rejects with signed bundles) through full validation of the finalized generator",
     "level_text": "Deductive proof (compressed builder), inductive over every sequence of add attempts: each attempt is all-or-nothing (a rejected attempt leaves declared cost, signature and serializer state exactly unchanged, an accepted one adds exactly the declared cost and the aggregate of exactly the batch's signatures), block cost plus closing bytes never exceeds the block limit, finalize's two assert!s are unreachable and the returned cost is <= the limit and <= the running estimate; no arithmetic overflow for declared costs <= the limit.",
     "level_note": "ASSUMED: Serializer::add/restore/size contracts (restore returns to the exact pre-add state; closing nil costs <= 2 bytes), tree construction calls, Signature::aggregate as uninterpreted group addition. That the finalized generator decodes to exactly the accepted spends and costs what consensus charges depends on serializer correctness and CLVM (not covered). The interned builder is decided on ground histories only: 116 fixed histories of both builders (declared costs landing on the limit in half-byte steps -6..+40, accept / late-reject / accept with signed bundles, batches with truthful costs) are run on the real code: running estimate within the limit after every step, finalize total, the generator passes run_block_generator2 under the returned signature, spends exactly the accepted coins, costs exactly the returned cost, and the same history without the refused offers gives the same output. One known finding: a fresh compressed builder's cost() underestimates (known-findings.txt).",
-    "components": [V("builders"), N("native_builders_ground", "builders_ground")],
+    "components": [V("builders"), N("native_builders_ground", "builders_ground", thorough_task="builders_ground:thorough")],
     "assumptions": ["clvmr incremental Serializer contracts", "declared cost <= max block cost, sane constants, < 2^32 rejected attempts"],
     "not_covered": [
         "InternedBlockBuilder (build_interned_block.rs) as a contract for all histories: ground histories only",
